@@ -664,6 +664,16 @@ impl VLog {
 				let file_path = entry.path();
 				let file_size = entry.metadata()?.len();
 
+				// A file shorter than its header is the remains of a crash while the
+				// file was being created: it cannot hold an entry and nothing refers
+				// to it. Remove it instead of refusing to open the store (or, worse,
+				// appending behind the partial header).
+				if file_size > 0 && file_size < VLogFileHeader::SIZE as u64 {
+					log::warn!("Removing incomplete VLog file {file_name_str} ({file_size} bytes)");
+					std::fs::remove_file(&file_path)?;
+					continue;
+				}
+
 				// Track the file with maximum ID for active writer setup
 				if max_file_id.is_none_or(|current_max| file_id >= current_max) {
 					max_file_id = Some(file_id);
